@@ -15,7 +15,8 @@ PROPS = "Properties_C16"
 RULE = ("every string over {$,~,/,:,A,_,a,{,}} up to length 4 (quick) / 6 (thorough) under 3 environments "
         "(length 6: one of the 3; thorough also length 7 over {$,~,/,:,A,_,a} and length 8 over {$,~,/,A}), every byte 1..255 around '$' and '~', seeded random longer strings and random "
         "environments (set/unset/empty, values with '$' and '~', HOME set/unset/empty, null environ, names that are "
-        "prefixes of each other, entries without '='), allocation-failure scripts; non-trivial = the input contains "
+        "prefixes of each other, entries without '='), long names (62, 63, 64, 65, 100, 300 characters; environment with the long "
+        "name, its 63-character prefix, both, neither) and long lowercase/brace tails, allocation-failure scripts; non-trivial = the input contains "
         "a '$' followed by a name character or a '~'")
 ASSUMPTIONS = [
     "input and environment entries are NUL-terminated byte strings without interior NUL (C strings); environ is "
@@ -118,6 +119,35 @@ def byte_sweep():
     return out
 
 
+LONG_LENS = (62, 63, 64, 65, 100, 300)
+
+
+def long_name(r, n):
+    """a name of n characters over [A-Z0-9_] (first one a letter so it reads as a reference)"""
+    return "".join(r.choice("ABCXYZ_")) + "".join(r.choice("ABCDEFGHIJKLMNOPQRSTUVWXYZ0123456789_") for _ in range(n - 1))
+
+
+def long_names(r):
+    """references whose NAME is long (a fixed-size key buffer or a truncating lookup shows only there):
+    environment holds (a) only the long name, (b) only its 63-character prefix, (c) both (either order),
+    (d) neither; also a name one character longer, and long lowercase/brace tails after a name"""
+    out = []
+    for n in LONG_LENS:
+        name = long_name(r, n)
+        pre = name[:63] if n > 63 else name[:-1]
+        envs = [mkenv([name + "=LONG"]), mkenv([pre + "=PREFIX"]), mkenv([pre + "=PREFIX", name + "=LONG"]),
+                mkenv([name + "=LONG", pre + "=PREFIX"]), mkenv(["HOME=/h"]), "n",
+                mkenv([name + "X=LONGER", "A=v"])]
+        tail = "".join(r.choice("abcxyz{}") for _ in range(n))
+        for e in envs:
+            for text in ("$" + name, "x$" + name + "/y", "$" + pre + ":$" + name, "${" + name + "}",
+                         "$" + name + tail, "~/$" + name + "~", "$A" + tail, "$" + name + "$" + name):
+                out.append(mk(e, "a:", text))
+        out.append(mk(envs[2], "d", "$" + name))
+        out.append(mk(envs[0], "a:TF", "ab$" + name))
+    return out
+
+
 def gen(ctx, seed, tier):
     r = ctx.rng("gen", seed)
     thorough = tier == "thorough"
@@ -131,6 +161,7 @@ def gen(ctx, seed, tier):
                     s = "".join(tup)
                     cases.append(mk(ENVS[zlib.crc32(s.encode()) % 3], "a:", s))
         cases += byte_sweep()
+    cases += long_names(r)
     for _ in range(60000 if thorough else 6000):
         cases.append(mk(rand_env(r), "d" if r.random() < 0.15 else "a:", rand_input(r)))
     # allocation failure at every request index of a sample
@@ -218,9 +249,21 @@ def stats(cases, impl):
     d = {"null_environ": 0, "default_allocator": 0, "fault_scripts": 0, "with_reference": 0, "with_tilde": 0,
          "output_differs_from_input": 0, "returned_NULL": 0, "HANG": 0, "CRASH": 0}
     lens = {}
+    max_name = long_refs = 0
     for c, o in zip(cases, impl):
         e, a, s = c.split(" ")
         t = dec(s[2:])
+        i = 0
+        while i < len(t):
+            if t[i] == 36:
+                j = i + 1
+                while j < len(t) and is_name(t[j]):
+                    j += 1
+                max_name = max(max_name, j - i - 1)
+                long_refs += (j - i - 1) >= 63
+                i = j
+            else:
+                i += 1
         d["null_environ"] += e == "n"
         d["default_allocator"] += a == "d"
         d["fault_scripts"] += "F" in a
@@ -233,5 +276,7 @@ def stats(cases, impl):
         d["CRASH"] += ob.startswith("out=CRASH")
         k = min(len(t), 12)
         lens[k] = lens.get(k, 0) + 1
+    d["max_reference_name_length"] = max_name
+    d["references_with_name_of_63_or_more"] = long_refs
     d["input_length_histogram(12=12+)"] = {str(k): v for k, v in sorted(lens.items())}
     return d
